@@ -2324,3 +2324,503 @@ func isAsHelperResult(v ssa.Value) bool {
 	}
 	return false
 }
+
+// ---------------------------------------------------------------------------
+// theLoaderDoesNotSingleOutNames: what the stored form does not carry, the
+// loader derives the way the compiler does (a code object is "named" when it
+// is a function with a name).  It does not compare a stored name with a
+// particular name: a script may use that name too (func __main__(n) { ..
+// __main__(n-1) } loses its self-reference on reload and the reloaded code
+// fails where the original works).
+func theLoaderDoesNotSingleOutNames(c *core.Ctx) {
+	p := c.P
+	cp := p.Pkg("compiler")
+	isStored := func(t types.Type) bool {
+		nt := core.NamedOf(t)
+		return nt != nil && nt.Obj().Pkg() == cp.Types && (strings.HasSuffix(nt.Obj().Name(), "Def") || nt.Obj().Name() == "state")
+	}
+	// fields of the stored form that the marshaller fills with constants only are tags of the
+	// format ("int", "function"), not names that a script chose
+	type fk struct {
+		nt  *types.Named
+		idx int
+	}
+	chosen := map[fk]bool{}
+	for _, fn := range repoFns(p, "compiler") {
+		for _, b := range fn.Blocks {
+			for _, in := range b.Instrs {
+				st, ok := in.(*ssa.Store)
+				if !ok {
+					continue
+				}
+				fa, ok := st.Addr.(*ssa.FieldAddr)
+				if !ok || !isStored(fa.X.Type()) {
+					continue
+				}
+				if _, isK := st.Val.(*ssa.Const); !isK {
+					chosen[fk{core.NamedOf(fa.X.Type()), fa.Field}] = true
+				}
+			}
+		}
+	}
+	n, cmp := 0, 0
+	for _, fn := range repoFns(p, "compiler") {
+		k := 0
+		for _, b := range fn.Blocks {
+			for _, in := range b.Instrs {
+				bo, ok := in.(*ssa.BinOp)
+				if !ok || (bo.Op != token.EQL && bo.Op != token.NEQ) {
+					continue
+				}
+				for _, pair := range [][2]ssa.Value{{bo.X, bo.Y}, {bo.Y, bo.X}} {
+					u, ok := pair[0].(*ssa.UnOp)
+					if !ok || u.Op != token.MUL {
+						continue
+					}
+					fa, ok := u.X.(*ssa.FieldAddr)
+					if !ok || !isStored(fa.X.Type()) {
+						continue
+					}
+					if bt, ok := u.Type().Underlying().(*types.Basic); !ok || bt.Kind() != types.String {
+						continue
+					}
+					if !chosen[fk{core.NamedOf(fa.X.Type()), fa.Field}] {
+						continue
+					}
+					cmp++
+					k2, ok := pair[1].(*ssa.Const)
+					if !ok || k2.Value == nil {
+						continue
+					}
+					lit := k2.Value.ExactString()
+					if lit == `""` {
+						continue
+					}
+					n++
+					k++
+					c.Check(false, core.SSAName(fn)+"|"+fieldNameOf(core.NamedOf(fa.X.Type()), fa.Field)+"|no-particular-name|"+sprintf("%d", k), p.Pos(bo.Pos()),
+						fn.Name()+" compares the stored "+fieldNameOf(core.NamedOf(fa.X.Type()), fa.Field)+" with "+lit+": a script can use that very name, and its code is then loaded as something else than it was compiled to (func __main__(n) loses its self-reference; the reloaded code panics)")
+				}
+			}
+		}
+	}
+	if cmp == 0 {
+		core.Undecidedf("the loader compares no stored string")
+	}
+	c.Pass("compiler/store|stored-strings", "", sprintf("%d comparisons of stored strings, %d of them with a particular name", cmp, n))
+	c.Stat("stored_string_comparisons", cmp)
+}
+
+// ---------------------------------------------------------------------------
+// numberingContinuesWhereTheCodeLeftOff: functions are numbered by a counter of
+// the compiler, and the loader finds a function's code by that number.  A
+// compiler that is handed code to continue (WithCode) starts its counter from
+// that code: started from zero, the first function it compiles gets a number
+// that a function of an earlier piece has already, the stored form has two
+// functions under one id, and the reloaded code calls the wrong one or none.
+func numberingContinuesWhereTheCodeLeftOff(c *core.Ctx) {
+	p := c.P
+	cp := p.Pkg("compiler")
+	compT := core.MustType(cp, "Compiler")
+	st := compT.Underlying().(*types.Struct)
+	// counters: int fields of the Compiler that are incremented and turned into an id (Sprintf) somewhere
+	n := 0
+	for i := 0; i < st.NumFields(); i++ {
+		bt, ok := st.Field(i).Type().Underlying().(*types.Basic)
+		if !ok || bt.Info()&types.IsInteger == 0 {
+			continue
+		}
+		incremented := false
+		var seeded ssa.Instruction
+		takesCode := false
+		for _, fn := range repoFns(p, "compiler") {
+			for _, s := range storesToField(fn, compT, i) {
+				if bo, ok := s.Val.(*ssa.BinOp); ok && bo.Op == token.ADD {
+					incremented = true
+					continue
+				}
+				// a store in the constructor (or an option) of a value worked out from the code that was handed in
+				if core.DependsOn(s.Val, func(w ssa.Value) bool {
+					if call, ok := w.(*ssa.Call); ok {
+						for _, a := range call.Call.Args {
+							if pt, ok := a.Type().(*types.Pointer); ok && core.NamedOf(pt.Elem()) == core.MustType(cp, "Code") {
+								return true
+							}
+						}
+					}
+					return false
+				}) {
+					seeded = s
+				}
+			}
+		}
+		if !incremented {
+			continue
+		}
+		// can the compiler be handed code to continue?
+		mi := fieldIdxByName(compT, "main")
+		for _, fn := range repoFns(p, "compiler") {
+			if fn.Parent() == nil {
+				continue
+			}
+			for _, s := range storesToField(fn, compT, mi) {
+				if _, ok := s.Val.(*ssa.FreeVar); ok {
+					takesCode = true
+				}
+				for _, o := range core.Origins(s.Val) {
+					if u, ok := o.(*ssa.UnOp); ok {
+						if _, ok := u.X.(*ssa.FreeVar); ok {
+							takesCode = true
+						}
+					}
+					if _, ok := o.(*ssa.FreeVar); ok {
+						takesCode = true
+					}
+				}
+			}
+		}
+		if !takesCode {
+			continue
+		}
+		n++
+		c.Check(seeded != nil, "compiler.Compiler."+st.Field(i).Name()+"|continues-from-the-code-handed-in", p.Pos(st.Field(i).Pos()),
+			"Compiler."+st.Field(i).Name()+" numbers what the compiler creates, and the compiler can be handed code to continue (an option stores it in Compiler.main)"+ife(seeded != nil, "; the counter is set from that code", "; the counter is never set from that code: a new compiler starts at zero, and the first function of the next piece gets the id of a function of an earlier piece (compile `func a() { return 1 }`, then `func b() { return 2 }`, then `[a(), b()]`, each with compiler.New(WithCode(prev)): both functions have id \"1\", and the marshalled code panics after loading)"))
+	}
+	if n == 0 {
+		core.Undecidedf("no counter of the Compiler found next to an option that hands it code")
+	}
+	c.Stat("compiler_counters", n)
+}
+
+// ---------------------------------------------------------------------------
+// mountPointsAreNormalisedWhenTheyAreRegistered: the mount table is searched
+// with cleaned paths, component by component.  The key under which a mount is
+// entered is therefore cleaned as well ("/a/" serves "/a" like "/a" does), and
+// the mount that is entered carries that key as its Target, which the search
+// trims from the path: the host's Mount value is not trusted to repeat it
+// ({"/data": {Source: r}} with the Target left empty handed the source
+// "/data/x" instead of "/x").
+func mountPointsAreNormalisedWhenTheyAreRegistered(c *core.Ctx) {
+	p := c.P
+	osp := p.Pkg("os")
+	vosT := core.MustType(osp, "VirtualOS")
+	mountT := core.MustType(osp, "Mount")
+	mi := fieldIdxByName(vosT, "mounts")
+	ti := fieldIdxByName(mountT, "Target")
+	if mi < 0 || ti < 0 {
+		core.Undecidedf("VirtualOS.mounts / Mount.Target not found")
+	}
+	n := 0
+	for _, fn := range repoFns(p, "os") {
+		k := 0
+		for _, mu := range updatesMapFieldAll(fn, vosT, mi) {
+			n++
+			k++
+			cleaned := false
+			for _, o := range core.Origins(mu.Key) {
+				if call, ok := o.(*ssa.Call); ok {
+					if cal := call.Call.StaticCallee(); cal != nil && cal.Pkg != nil && (cal.Pkg.Pkg.Path() == "path/filepath" || cal.Pkg.Pkg.Path() == "path") && cal.Name() == "Clean" {
+						cleaned = true
+					}
+				}
+			}
+			// the value: a Mount made here whose Target is the key
+			own := false
+			for _, o := range core.Origins(mu.Value) {
+				al, ok := o.(*ssa.Alloc)
+				if !ok || al.Referrers() == nil {
+					continue
+				}
+				for _, r := range *al.Referrers() {
+					fa, ok := r.(*ssa.FieldAddr)
+					if !ok || fa.Field != ti || fa.Referrers() == nil {
+						continue
+					}
+					for _, r2 := range *fa.Referrers() {
+						if st, ok := r2.(*ssa.Store); ok && (st.Val == mu.Key || core.SameStorage(st.Val, mu.Key)) {
+							own = true
+						}
+					}
+				}
+			}
+			bad := ""
+			if !cleaned {
+				bad = "the key is entered as the host wrote it, not cleaned (a mount at \"/a/\" does not serve \"/a\")"
+			} else if !own {
+				bad = "the Mount that is entered is the host's, whose Target need not be the key (the search trims the Target from the path: with an empty Target the source is handed the whole path)"
+			}
+			c.Check(bad == "", core.SSAName(fn)+"|mount-entered-under-its-cleaned-key|"+sprintf("%d", k), p.Pos(mu.Pos()),
+				fn.Name()+" enters a mount into the table"+ife(bad == "", " under the cleaned mount point, with a Mount of its own that carries that key as its Target", ": "+bad))
+		}
+	}
+	if n == 0 {
+		core.Undecidedf("no function enters a mount into VirtualOS.mounts")
+	}
+	c.Stat("mount_registrations", n)
+}
+
+// updatesMapFieldAll: the map updates in fn (and nothing else) whose map is the
+// given field of the given struct type.
+func updatesMapFieldAll(fn *ssa.Function, nt *types.Named, idx int) []*ssa.MapUpdate {
+	var out []*ssa.MapUpdate
+	for _, b := range fn.Blocks {
+		for _, in := range b.Instrs {
+			mu, ok := in.(*ssa.MapUpdate)
+			if !ok {
+				continue
+			}
+			for _, o := range core.Origins(mu.Map) {
+				if u, ok := o.(*ssa.UnOp); ok && u.Op == token.MUL {
+					if fa, ok := u.X.(*ssa.FieldAddr); ok && fa.Field == idx && core.NamedOf(fa.X.Type()) == nt {
+						out = append(out, mu)
+					}
+				}
+			}
+		}
+	}
+	return out
+}
+
+// ---------------------------------------------------------------------------
+// theMarshallerRefusesWhatTheLoaderCannotRead: everything the marshaller
+// produces can be loaded again.  The loader wants the parent of every code
+// object to come before it, so the marshaller starts from a code object that
+// has no parent (and says so when it is handed a function's code); and
+// encoding/json reads at most 10000 levels of nesting, so the marshaller,
+// which nests a symbol table inside its parent, bounds the depth of what it
+// writes (5100 nested blocks parse, compile and marshal, and the result could
+// not be read back).
+func theMarshallerRefusesWhatTheLoaderCannotRead(c *core.Ctx) {
+	p := c.P
+	cp := p.Pkg("compiler")
+	codeT := core.MustType(cp, "Code")
+	pi := fieldIdxByName(codeT, "parent")
+	stateT := core.LookupType(cp, "state")
+	if pi < 0 || stateT == nil {
+		core.Undecidedf("compiler.Code.parent / compiler.state not found")
+	}
+	var entry *ssa.Function
+	for _, fn := range repoFns(p, "compiler") {
+		if fn.Parent() != nil || fn.Signature.Params().Len() != 1 || fn.Signature.Results().Len() != 2 {
+			continue
+		}
+		if pt, ok := fn.Signature.Params().At(0).Type().(*types.Pointer); !ok || core.NamedOf(pt.Elem()) != codeT {
+			continue
+		}
+		if rt, ok := fn.Signature.Results().At(0).Type().(*types.Pointer); ok && core.NamedOf(rt.Elem()) == stateT {
+			entry = fn
+		}
+	}
+	if entry == nil {
+		core.Undecidedf("the function that turns a Code into its stored form was not found")
+	}
+	// (a) an error return behind a nil test of the parameter's parent
+	refuses := false
+	// (b) an error return behind an ordering comparison with a constant
+	bounded := false
+	for _, b := range entry.Blocks {
+		iff, ok := b.Instrs[len(b.Instrs)-1].(*ssa.If)
+		if !ok {
+			continue
+		}
+		bo, ok := iff.Cond.(*ssa.BinOp)
+		if !ok {
+			continue
+		}
+		errBranch := func() bool {
+			for _, s := range b.Succs {
+				for _, in := range s.Instrs {
+					if r, ok := in.(*ssa.Return); ok && len(r.Results) == 2 {
+						if k, isK := spilledResult(s, r.Results[1]).(*ssa.Const); !isK || !k.IsNil() {
+							return true
+						}
+					}
+				}
+			}
+			return false
+		}
+		switch bo.Op {
+		case token.EQL, token.NEQ:
+			for _, side := range []ssa.Value{bo.X, bo.Y} {
+				if u, ok := side.(*ssa.UnOp); ok && u.Op == token.MUL {
+					if fa, ok := u.X.(*ssa.FieldAddr); ok && fa.Field == pi && core.NamedOf(fa.X.Type()) == codeT && fa.X == ssa.Value(entry.Params[0]) && errBranch() {
+						refuses = true
+					}
+				}
+			}
+		case token.GTR, token.GEQ, token.LSS, token.LEQ:
+			for _, side := range []ssa.Value{bo.X, bo.Y} {
+				if k, ok := side.(*ssa.Const); ok && k.Value != nil && k.Int64() > 0 && k.Int64() < 5000 && errBranch() {
+					bounded = true
+				}
+			}
+		}
+	}
+	c.Check(refuses, core.SSAName(entry)+"|refuses-code-that-has-a-parent", p.Pos(entry.Pos()),
+		entry.Name()+" turns a code object into the stored form"+ife(refuses, " and refuses one that has a parent", " and accepts one that has a parent: the loader wants every parent to come first, so MarshalCode(fn.Code()) produces data that UnmarshalCode rejects (\"parent code not found: __main__\")"))
+	c.Check(bounded, core.SSAName(entry)+"|bounds-the-nesting-it-writes", p.Pos(entry.Pos()),
+		entry.Name()+" writes symbol tables nested inside their parents"+ife(bounded, " and refuses a nesting beyond a constant below encoding/json's limit", " without a bound: encoding/json reads at most 10000 levels, two per table, so the code of 5100 nested blocks marshals and cannot be read back (\"exceeded max depth\")"))
+}
+
+// ---------------------------------------------------------------------------
+// compileErrorsCarryAPosition: a compile error names the line and the column
+// of what it is about.  The compiler has one function that renders an error
+// with its position; an error text that begins "compile error" is built there
+// and nowhere else in the compile functions, and an error that comes out of
+// the symbol table (which knows no positions) is given the position of the
+// node before it is returned.  The sites that are left are listed with the
+// reason.
+var compileErrorsWithoutPosition = map[string]string{
+	"(*compiler.Compiler).compileFunc|fmt.Errorf": "\"unsupported default value (got .., line N)\": the wording, with a line and no column, is pinned by compiler_test.go (TestCompileErrors)",
+	"compiler.New|InsertVariable":                 "the names of the host's globals are entered before there is any source text",
+}
+
+func compileErrorsCarryAPosition(c *core.Ctx) {
+	p := c.P
+	cp := p.Pkg("compiler")
+	compT := core.MustType(cp, "Compiler")
+	stT := core.MustType(cp, "SymbolTable")
+	var formatter *ssa.Function
+	for _, fn := range repoFns(p, "compiler") {
+		if fn.Name() == "formatError" {
+			formatter = fn
+		}
+	}
+	if formatter == nil {
+		core.Undecidedf("Compiler.formatError not found")
+	}
+	positioned := func(v ssa.Value) bool {
+		// the error goes into a function of the Compiler that calls the formatter (or is its result)
+		if v.Referrers() == nil {
+			return false
+		}
+		for _, r := range *v.Referrers() {
+			if ci, ok := r.(ssa.CallInstruction); ok {
+				if cal := ci.Common().StaticCallee(); cal != nil && (cal == formatter || callsFunc(cal, formatter)) {
+					return true
+				}
+			}
+		}
+		return false
+	}
+	n := 0
+	for _, fn := range repoFns(p, "compiler") {
+		if fn == formatter {
+			continue
+		}
+		// functions of the Compiler (and their closures) only: the symbol table and the store have no positions
+		root := fn
+		for root.Parent() != nil {
+			root = root.Parent()
+		}
+		isCompilerFn := root.Signature.Recv() != nil && core.NamedOf(root.Signature.Recv().Type()) == compT || root.Name() == "New" || root.Name() == "Compile"
+		if !isCompilerFn {
+			continue
+		}
+		k := map[string]int{}
+		for _, b := range fn.Blocks {
+			for _, in := range b.Instrs {
+				call, ok := in.(*ssa.Call)
+				if !ok {
+					continue
+				}
+				cal := call.Call.StaticCallee()
+				if cal == nil {
+					continue
+				}
+				kind := ""
+				if cal.Pkg != nil && cal.Pkg.Pkg.Path() == "fmt" && cal.Name() == "Errorf" && len(call.Call.Args) > 0 {
+					if k0, ok := call.Call.Args[0].(*ssa.Const); ok && k0.Value != nil && strings.HasPrefix(strings.Trim(k0.Value.ExactString(), "\""), "compile error") {
+						kind = "fmt.Errorf"
+					}
+				}
+				if cal.Signature.Recv() != nil && core.NamedOf(cal.Signature.Recv().Type()) == stT {
+					res := cal.Signature.Results()
+					if res.Len() > 0 && isErrorType(res.At(res.Len()-1).Type()) {
+						kind = cal.Name()
+					}
+				}
+				if kind == "" {
+					continue
+				}
+				n++
+				ok2 := false
+				if kind == "fmt.Errorf" {
+					ok2 = false
+				} else {
+					// the error result of the symbol table call: positioned before it is returned
+					var errv ssa.Value
+					if call.Referrers() != nil {
+						for _, r := range *call.Referrers() {
+							if ex, ok := r.(*ssa.Extract); ok && isErrorType(ex.Type()) {
+								errv = ex
+							}
+						}
+					}
+					if isErrorType(call.Type()) {
+						errv = call
+					}
+					ok2 = errv == nil || positioned(errv) || !reachesReturn(errv)
+				}
+				key := core.SSAName(fn) + "|" + kind
+				k[key]++
+				why, listed := compileErrorsWithoutPosition[key]
+				c.Check(ok2 || listed, key+"|carries-a-position|"+sprintf("%d", k[key]), p.Pos(call.Pos()),
+					fn.Name()+ife(kind == "fmt.Errorf", " builds a \"compile error\" with fmt.Errorf", " takes an error from SymbolTable."+kind)+ife(ok2, " and gives it the position of the node", ife(listed, ": "+why, ": the error reaches the caller of Compile without a line and a column (`x := 1\\nx := 2`: compile error: variable \"x\" already exists)")))
+			}
+		}
+	}
+	if n < 10 {
+		core.Undecidedf("only %d error-producing sites found in the compile functions", n)
+	}
+	c.Stat("compile_error_sites", n)
+}
+
+// callsFunc: f calls g directly.
+func callsFunc(f, g *ssa.Function) bool {
+	if f == nil || f.Blocks == nil {
+		return false
+	}
+	for _, b := range f.Blocks {
+		for _, in := range b.Instrs {
+			if ci, ok := in.(ssa.CallInstruction); ok && ci.Common().StaticCallee() == g {
+				return true
+			}
+		}
+	}
+	return false
+}
+
+// reachesReturn: the value is returned by its function (directly or through a phi or a spilled result).
+func reachesReturn(v ssa.Value) bool {
+	seen := map[ssa.Value]bool{}
+	var walk func(v ssa.Value) bool
+	walk = func(v ssa.Value) bool {
+		if seen[v] || v.Referrers() == nil {
+			return false
+		}
+		seen[v] = true
+		for _, r := range *v.Referrers() {
+			switch x := r.(type) {
+			case *ssa.Return:
+				return true
+			case *ssa.Phi:
+				if walk(x) {
+					return true
+				}
+			case *ssa.Store:
+				if al, ok := x.Addr.(*ssa.Alloc); ok && x.Val == v {
+					if al.Referrers() != nil {
+						for _, r2 := range *al.Referrers() {
+							if u, ok := r2.(*ssa.UnOp); ok && walk(u) {
+								return true
+							}
+						}
+					}
+				}
+			}
+		}
+		return false
+	}
+	return walk(v)
+}
